@@ -15,7 +15,9 @@ signed-refs branch itself, and `sigrefs::validate` hands them a `Remote<Verified
 built from `SignedRefs<Verified>` (typestate shared with C20: only
 `SignedRefs::verified` builds it, behind `verify`=Ok); (FLOW) `DataRefs::
 prepare_updates` creates one direct update per signed ref with the signed target
-and prunes only refs that are not signed and not under `refs/rad`.
+and prunes only refs that are not signed and not under `refs/rad`; (ORDER) the per-remote list
+of pending updates only grows at its end, so the update derived from the verified signed refs
+is applied after — and overrides — the advertised tip recorded by an earlier stage.
 Not decided: that the update/prune set is exactly right for every repository
 content, atomicity of `repository::update`, and any git-level behaviour."""
 import re
